@@ -50,7 +50,7 @@ impl Prop for C15 {
     }
     fn run_cap_secs(&self, tier: Tier) -> u64 {
         if tier == Tier::Quick {
-            30
+            60
         } else {
             900 // the ~4.3 GB chain
         }
